@@ -32,6 +32,7 @@ def run(ctx):
     root_state(ctx, g)
     min_hyperbolic(ctx, g)
     good_list(ctx, g)
+    orbifold_key(ctx, g)
     ctx.clauses.append("the generator's private orientation / orbit routines look at every operation 0..=dim() (T4)")
     gb = [b for d, b in sorted(ctx.facts.bodies.items()) if d.startswith(M) and "{closure" not in d]
     ctx.scan(gb)
@@ -39,6 +40,112 @@ def run(ctx):
     filters(ctx, g)
     ctx.clauses.append("numbered consecutively from 1 (T4)")
     counter_rule(ctx, "T4-consecutive-numbering", M + "DSyms::new", "<generators::dsym_generators::DSyms as std::iter::Iterator>::next", "SimpleDSym::from_partial", g)
+
+
+def orbifold_key(ctx, g):
+    """the key looked up in the good-orbifold list is Conway's symbol of the candidate: cone degrees (descending), `*` exactly when the D-set
+    has a mirror (a loop - NOT when there happens to be a corner: 2*, 3*, 4* and * have mirrors without corners), corner degrees (descending),
+    `x` exactly when not weakly oriented; in this order"""
+    ctx.clauses.append("the generator's orbifold key is cones . (* iff the D-set has a loop) . corners . (x iff not weakly oriented), degrees descending (T9)")
+    b = ctx.body(M + "DSymBackTracking::orbifold_symbol")
+    ctx.scan([b])
+    me = ("param", 1, b.debug.get(1, ""))
+    ret = strip(norm(b.local_origin(0), g))
+    parts = None
+    if is_call(ret, "join"):
+        arr = strip(ret[2][0])
+        while arr[0] == "cast":
+            arr = strip(arr[1])
+        if arr[0] == "agg" and arr[1] == "array":
+            parts = [strip(x) for x in arr[2]]
+    bad = None
+    if parts is None or len(parts) != 4 or strip(ret[2][1]) != ("str", ""):
+        bad = "the key is not the concatenation of four parts: %s" % show(ret, 1)[:80]
+    else:
+        names = {v: k for k, v in b.debug.items()}
+
+        def lst(x, name):
+            return is_call(x, "degree_list_as_string") and strip(x[2][0]) == ("local", names.get(name, -1), name)
+        if not (lst(parts[0], "cones") and lst(parts[2], "corners")):
+            bad = "the key does not start with the cone degrees and carry the corner degrees in third place: %s / %s" % (show(parts[0], 1)[:40], show(parts[2], 1)[:40])
+
+        def flag(x, what):
+            """{literal: [atoms]} for String::from(<&str chosen by a test>)"""
+            if not is_call(x, "From::from"):
+                return None
+            a = strip(x[2][0])
+            if a[0] != "local":
+                return None
+            out = {}
+            for dbb, dd in b.all_defs_origins(a[1]):
+                dd = strip(norm(dd, g))
+                if dd[0] != "str":
+                    return None
+                out[dd[1]] = [atom_norm(z, g) for z in b.facts_at(dbb)]
+            return out
+        mid, cross = flag(parts[1], "*"), flag(parts[3], "x")
+
+        def decided_by(fl, mark, callee, recv):
+            if fl is None or set(fl) != {"", mark}:
+                return False
+            def has(atoms, val):
+                return any(z[0] == "bool" and z[2] is val and is_call(z[1], callee) and strip(z[1][2][0]) == recv for z in atoms)
+            return has(fl[""], True) and has(fl[mark], False)
+        if not bad and not decided_by(mid, "*", "DSet::is_loopless", ("field", me, "dset")):
+            bad = "the `*` of the key is not decided by `self.dset.is_loopless()` (`*` exactly when the D-set has a mirror): orbifolds with a mirror but no corner (2*, 3*, 4*, *) get a key without `*` and are dropped as bad"
+        if not bad and not decided_by(cross, "x", "is_weakly_oriented", me):
+            bad = "the `x` of the key is not decided by `self.is_weakly_oriented()`"
+        # both lists sorted descending before use
+        for name in ("cones", "corners"):
+            l = ("local", names.get(name, -1), name)
+            srt = [bi for bi, t in b.calls("::sort") if contains(norm(b.origin(t["args"][0]), g), lambda y: y == l)]
+            rev = [bi for bi, t in b.calls("::reverse") if contains(norm(b.origin(t["args"][0]), g), lambda y: y == l)]
+            use = [bi for bi, t in b.calls("degree_list_as_string") if strip(norm(b.origin(t["args"][0]), g)) == l]
+            pushes = [bi for bi, t in b.calls("::push") if contains(norm(b.origin(t["args"][0]), g), lambda y: y == l)]
+            ok = len(srt) == 1 and len(rev) == 1 and len(use) == 1 and b.dominates(srt[0], rev[0]) and b.dominates(rev[0], use[0]) and all(srt[0] not in b.fwd(u) for u in use) \
+                and all(srt[0] in b.fwd(p_) for p_ in pushes) and not any(p_ in b.fwd(srt[0]) for p_ in pushes)
+            if not bad and not ok:
+                bad = "the %s are not sorted and reversed (descending) after the last push and before they are printed" % name
+    ctx.ob("T9-orbifold-key", b.name, "cones * corners x", "ok" if not bad else "violation",
+           "cones (descending), `*` iff !is_loopless, corners (descending), `x` iff !is_weakly_oriented" if not bad else bad)
+    # what goes into which list
+    want = {("corners", "fix"): False, ("cones", "swap"): False, ("corners", "chain"): False, ("cones", "nochain"): False}
+    names = {v: k for k, v in b.debug.items()}
+    for bi, t in b.calls("::push"):
+        tgt = strip(norm(b.origin(t["args"][0]), g))
+        while tgt[0] in ("ref", "deref"):
+            tgt = tgt[1]
+        nm = b.debug.get(tgt[1], "?") if tgt[0] == "local" else "?"
+        val = strip(norm(b.origin(t["args"][1]), g))
+        fa = [z for z in (atom_norm(z, g) for z in b.facts_at(bi)) if z[0] != "rel" or (isinstance(z[2], tuple) and isinstance(z[3], tuple))]
+        def opx(z, k):
+            return z[0] == "call" and z[1].endswith("op_unchecked") and eval_int(z[2][1]) == k
+        if eval_int(val) == 2:
+            d0_fix = any(z[0] == "rel" and z[1] == "Eq" and opx(strip(z[2]), 0) and strip(z[3]) == strip(strip(z[2])[2][2]) for z in fa)
+            d2_fix = any(z[0] == "rel" and z[1] == "Eq" and opx(strip(z[2]), 2) and strip(z[3]) == strip(strip(z[2])[2][2]) for z in fa)
+            d0_move = any(z[0] == "rel" and z[1] == "Ne" and opx(strip(z[2]), 0) and strip(z[3]) == strip(strip(z[2])[2][2]) for z in fa)
+            d2_d0 = any(z[0] == "rel" and z[1] == "Eq" and {k_ for k_ in (0, 2) if opx(strip(z[2]), k_) or opx(strip(z[3]), k_)} == {0, 2} and
+                        strip(strip(z[2])[2][2]) == strip(strip(z[3])[2][2]) for z in fa if z[0] == "rel" and strip(z[2])[0] == "call" and strip(z[3])[0] == "call")
+            if nm == "corners" and d0_fix and d2_fix:
+                want[("corners", "fix")] = True
+            elif nm == "cones" and d0_move and d2_d0:
+                want[("cones", "swap")] = True
+            else:
+                want[("?", show(val, 1))] = False
+        else:
+            big = any(z[0] == "rel" and z[1] == "Lt" and eval_int(z[2]) == 1 and strip(z[3]) == val for z in fa)
+            ch = [z for z in fa if z[0] == "bool" and contains(z[1], lambda y: y[0] == "field" and y[2] == "orbit_is_chain")]
+            same_i = val[0] == "index" and all(contains(z[1], lambda y: y == strip(val[2])) for z in ch)
+            if big and ch and same_i and nm == "corners" and all(z[2] is True for z in ch):
+                want[("corners", "chain")] = True
+            elif big and ch and same_i and nm == "cones" and all(z[2] is False for z in ch):
+                want[("cones", "nochain")] = True
+            else:
+                want[("?", show(val, 1)[:30])] = False
+    missing = [k for k, v in want.items() if not v]
+    ctx.ob("T9-orbifold-key", b.name, "which degree goes where", "ok" if not missing else "violation",
+           "2 -> corners at a chamber fixed by 0 and 2, 2 -> cones where 0 and 2 agree off the mirror; v > 1 -> corners on a chain orbit, cones otherwise" if not missing else
+           "the degrees are not sorted into cones / corners as: fixed by 0 and 2 -> corner 2; d.0 = d.2 != d -> cone 2; v[i] > 1 on a chain -> corner, else cone (unmatched: %s)" % missing)
 
 
 def windows(ctx, g):
